@@ -799,6 +799,16 @@ impl Prop for Prims {
                     let k = if wide && cx.rng.chance(1, 3) { (*cx.rng.pick(&[63usize, 64, 65, 127, 128, 129, 255, 256, 257])).min(alpha.len()) } else { k };
                     let n1 = if long { cx.rng.range(20, top) } else { cx.rng.below(7) };
                     let n2 = if cx.rng.chance(1, 2) { cx.rng.range(20, top) } else { cx.rng.below(7) };
+                    // lengths at and next to powers of two, against an empty or tiny other side
+                    let edges = [0usize, 1, 2, 3, 4, 7, 8, 9, 15, 16, 17, 31, 32, 33, 63, 64, 65, 127, 128, 129, 255, 256, 257, 1023, 1024, 1025, 4095, 4096, 4097];
+                    let (n1, n2) = if cx.tier != Tier::Miri && cx.rng.chance(1, 5) {
+                        cx.count("pairs with a length at or next to a power of two");
+                        let a = *cx.rng.pick(&edges);
+                        let b = if cx.rng.chance(1, 2) { cx.rng.below(3) } else { *cx.rng.pick(&edges) };
+                        if cx.rng.chance(1, 2) { (a, b) } else { (b, a) }
+                    } else {
+                        (n1, n2)
+                    };
                     let s1: Vec<char> = (0..n1).map(|_| alpha[cx.rng.below(k)]).collect();
                     let s2: Vec<char> = if cx.rng.chance(1, 5) { let mut x = s1.clone(); cx.rng.shuffle(&mut x); x } else { (0..n2).map(|_| alpha[cx.rng.below(k)]).collect() };
                     private::check_jaccard(cx, &s1, &s2);
